@@ -7,7 +7,7 @@ and compared cell by cell with the SMT-LIB 2.6 lexicon (section 3.1).
 """
 import ast
 
-from ..astutil import call_name, walk_no_nested, is_const
+from ..astutil import call_name, walk_no_nested, is_const, kw
 from ..cfg import cfg_of
 from ..loader import Program, AnalysisError, unparse
 from ..report import Check
@@ -20,6 +20,10 @@ CLASSES = {
     'DIGIT': '0', 'HASH': '#', 'COLON': ':', 'MINUS': '-', 'DOT': '.',
 }
 WS = ('SP', 'TAB', 'LF', 'CR')
+# look-ahead characters tried in every inner cell (None: the character
+# itself, for tests of the form text[pos] == char / first_char)
+LOOKAHEADS = (('la=DQ', '"'), ('la=BAR', '|'), ('la=x', 'x'),
+              ('la=same', None))
 
 
 class Explorer:
@@ -302,7 +306,8 @@ def extract_table(chk, prog):
             else [(sname, None)]
         for vname, fc in variants:
             for cname, ch in CLASSES.items():
-                for la_name, la in (('la=DQ', '"'), ('la=x', 'x')):
+                for la_name, la in LOOKAHEADS:
+                    la = ch if la is None else la
                     paths = ex.explore(node, ch, fc, la)
                     table[(vname, cname, la_name)] = paths
     return m, f, cfg, ex, top, states, table
@@ -405,8 +410,8 @@ def rule_r1(chk, m, f, top, states, table):
             return {'append continue'}
         if state == 'STRING':
             if cname == 'DQ':
-                return {'append +lookahead continue'} if la == 'la=DQ' \
-                    else {'append end'}
+                return {'append +lookahead continue'} if la in (
+                    'la=DQ', 'la=same') else {'append end'}
             return {'append continue'}
         if state == 'QUOTED':
             if cname == 'BAR':
@@ -421,7 +426,7 @@ def rule_r1(chk, m, f, top, states, table):
 
     for state in ('TOKEN', 'STRING', 'QUOTED', 'COMMENT'):
         for cname in CLASSES:
-            for la in ('la=DQ', 'la=x'):
+            for la, _ in LOOKAHEADS:
                 got_all = cell(state, cname, la)
                 # judge the not-at-EOF behaviour; (EOF is rule R3)
                 got = {k for (k, at_eof) in got_all if not at_eof}
@@ -571,6 +576,132 @@ def rule_r4(chk, m, f, cfg, top, states, table):
                       f'{bad[:2]}', loc=m.loc(f), nontrivial=True)
 
 
+LOSSY_STR = ('replace', 'strip', 'lstrip', 'rstrip', 'lower', 'upper',
+             'casefold', 'expandtabs', 'translate', 'splitlines', 'split',
+             'join', 'encode', 'decode', 'normalize', 'sub', 'subn',
+             'removeprefix', 'removesuffix', 'title', 'swapcase')
+
+
+def _lossy_call(e):
+    for x in ast.walk(e):
+        if isinstance(x, ast.Call) and isinstance(
+                x.func, ast.Attribute) and x.func.attr in LOSSY_STR:
+            return x
+    return None
+
+
+def rule_r5(chk, prog):
+    chk.rule('C08.R5', 'the scanner sees the characters of the file: the '
+             'text parameter is not rewritten before/while scanning, and '
+             'every caller passes the content of a file opened without '
+             'newline translation')
+    m = prog.mod('nodeio')
+    f = m.func('parse_smtlib')
+    where = 'nodeio.parse_smtlib'
+    tp = f.args.args[0].arg
+    n = 0
+    for st in walk_no_nested(f):
+        tgts = []
+        if isinstance(st, ast.Assign):
+            tgts = st.targets
+        elif isinstance(st, (ast.AugAssign, ast.AnnAssign)):
+            tgts = [st.target]
+        elif isinstance(st, ast.NamedExpr):
+            tgts = [st.target]
+        for t in tgts:
+            if any(isinstance(x, ast.Name) and x.id == tp
+                   for x in ast.walk(t)):
+                n += 1
+                val = getattr(st, 'value', None)
+                lc = _lossy_call(val) if val is not None else None
+                if lc is None and not isinstance(st, ast.AugAssign):
+                    raise AnalysisError(
+                        f'C08.R5: {m.loc(st)}: "{tp}" is rebound by '
+                        f'"{unparse(st)}", an expression this rule does '
+                        'not recognise')
+                chk.check('C08.R5', where, st, False,
+                          f'the text is rewritten before it is scanned ('
+                          f'{unparse(lc) if lc else unparse(st)}): the '
+                          'rewrite also applies inside string literals, '
+                          'quoted symbols and comments, whose text then '
+                          'differs from the lexeme in the input',
+                          loc=m.loc(st), nontrivial=True)
+    chk.instance('C08.R5', where, f'parameter "{tp}" is never rebound',
+                 n == 0, 'no assignment to the parameter in the function',
+                 nontrivial=False, loc=m.loc(f))
+    # call sites
+    ncall = 0
+    for cm in prog.pkg_modules():
+        if 'tests' in cm.rel():
+            continue
+        for c in ast.walk(cm.tree):
+            if not (isinstance(c, ast.Call) and (call_name(c) or '').split(
+                    '.')[-1] == 'parse_smtlib' and c.args):
+                continue
+            ncall += 1
+            fn = c
+            while fn is not None and not isinstance(
+                    fn, (ast.FunctionDef, ast.Module)):
+                fn = getattr(fn, '_parent', None)
+            wh = f'{cm.name}.{getattr(fn, "_qualname", "<module>")}'
+            a = c.args[0]
+            lc = _lossy_call(a)
+            if lc is not None:
+                chk.check('C08.R5', wh, c, False,
+                          f'the text is rewritten ({unparse(lc)}) before it '
+                          'reaches the scanner', loc=cm.loc(c),
+                          nontrivial=True)
+                continue
+            if not (isinstance(a, ast.Call) and isinstance(
+                    a.func, ast.Attribute) and a.func.attr == 'read'
+                    and not a.args):
+                raise AnalysisError(
+                    f'C08.R5: {cm.loc(c)}: argument "{unparse(a)}" of '
+                    'parse_smtlib is not <file>.read()')
+            src = a.func.value
+            opens = []
+            if isinstance(src, ast.Call):
+                opens = [src]
+            elif isinstance(src, ast.Name):
+                p = getattr(c, '_parent', None)
+                while p is not None and not isinstance(p, ast.FunctionDef):
+                    if isinstance(p, ast.With):
+                        for it in p.items:
+                            if isinstance(it.optional_vars, ast.Name) and \
+                                    it.optional_vars.id == src.id and \
+                                    isinstance(it.context_expr, ast.Call):
+                                opens.append(it.context_expr)
+                    p = getattr(p, '_parent', None)
+                if not opens and isinstance(fn, ast.FunctionDef):
+                    for st in ast.walk(fn):
+                        if isinstance(st, ast.Assign) and any(
+                                isinstance(t, ast.Name) and t.id == src.id
+                                for t in st.targets) and isinstance(
+                                    st.value, ast.Call):
+                            opens.append(st.value)
+            opens = [o for o in opens if (call_name(o) or '') in (
+                'open', 'io.open')]
+            if not opens:
+                raise AnalysisError(
+                    f'C08.R5: {cm.loc(c)}: cannot find the open() call that '
+                    f'produces "{unparse(src)}"')
+            for o in opens:
+                nl = kw(o, 'newline')
+                mode = o.args[1] if len(o.args) > 1 else kw(o, 'mode')
+                binary = isinstance(mode, ast.Constant) and 'b' in str(
+                    mode.value)
+                ok = binary or (isinstance(nl, ast.Constant)
+                                and nl.value == '')
+                chk.check('C08.R5', wh, o, ok,
+                          'the input file is opened in text mode with '
+                          'universal newline translation: CR LF (and CR) '
+                          'inside string literals, quoted symbols and '
+                          'comments reach the scanner as LF, the token text '
+                          'differs from the lexeme in the file',
+                          loc=cm.loc(o), nontrivial=True)
+    chk.floor('C08.R5', 'call sites of parse_smtlib', ncall, 2)
+
+
 def run(tier):
     prog = Program()
     chk = Check(
@@ -594,11 +725,12 @@ def run(tier):
             'the representative OTHER (the scanner only compares with '
             'constants)',
         ])
+    chk.guard(rule_r5, chk, prog)
     m, f, cfg, ex, top, states, table = extract_table(chk, prog)
-    rule_r1(chk, m, f, top, states, table)
-    rule_r2(chk, m, f, cfg, top, states, table)
-    rule_r3(chk, m, f, cfg, top, states, table)
-    rule_r4(chk, m, f, cfg, top, states, table)
+    chk.guard(rule_r1, chk, m, f, top, states, table)
+    chk.guard(rule_r2, chk, m, f, cfg, top, states, table)
+    chk.guard(rule_r3, chk, m, f, cfg, top, states, table)
+    chk.guard(rule_r4, chk, m, f, cfg, top, states, table)
     extra = None
     if tier == 'thorough':
         from .. import selftest
